@@ -20,8 +20,17 @@ source values and the constructor log are concerned.  Core-only imports (plus th
                         applied set is carried from call to call exactly when the extracted table
                         `Jap.Gen.linkStateWrites` lists a write outside cfg (it lists none).
 
+* `Parent`, `targetSlots`, `writeAll`
+                        `ActionLink.set_target_value`: where the value of an applied link is written, given what the
+                        parsed configuration holds at the dest of the link's target action — a plain (class-group)
+                        parameter or the subclass-typed argument itself: `cfg[target_key]`; a parameter of a subclass
+                        spec: `cfg[target_key]` when the spec has that key, else nothing ("target not found"); a
+                        parameter of the classes of a LIST of specs: into every item that has the key
+                        (`item[child_key]`, named `itemKey dest j child_key` here), items without it untouched.
+
 Not modelled (data dependent): the `continue` for a missing source attribute, `is_nested_instantiation_link`,
-`set_target_value`'s "target not found" return for subclass targets; a link always has at least one source.
+the type check of a link that targets a whole subclass-typed argument, a link applied after the component holding
+its target has already been instantiated (open-finding class only); a link always has at least one source.
 -/
 import Jap.Core.Graph
 
@@ -35,13 +44,29 @@ inductive Val where
   | app (fn : String) (args : List Val)
 deriving Repr, Inhabited
 
+/-- `cfg.get(target_action.dest)` of a parsed configuration, as far as `set_target_value` looks at it -/
+inductive Parent where
+  | gone                                         -- `None` / neither a `Namespace` nor a list
+  | single (keys : List String)                  -- a `Namespace`: every key path below it (what `child_key in parent` answers)
+  | list (items : List (Option (List String)))   -- a list; an item is a `Namespace` (its key paths) or something else (`none`)
+deriving Repr
+
 /-- an instantiation link with what the value flow needs: `(source_action.dest, attribute)` per source, the target
-    key, the name of the compute function -/
+    key, the name of the compute function; and about its target action: `target_action.dest`,
+    `is_subclass_typehint(target_action, all_subtypes=False, also_lists=True)`, the parsed value found there.
+    The defaults describe a link into a parameter of a class group (not subclass-typed). -/
 structure FLink where
   sources : List (String × Option String)
   target : String
   fn : Option String
+  tdest : String := ""
+  tsub : Bool := false
+  parent : Parent := .gone
 deriving Repr
+
+/-- a link into a parameter of a class group -/
+def FLink.plain (sources : List (String × Option String)) (target : String) (fn : Option String) : FLink :=
+  { sources := sources, target := target, fn := fn }
 
 /-- the view of the order model -/
 def FLink.toLink (l : FLink) : Link := ⟨l.sources.map (·.1), l.target⟩
@@ -77,6 +102,41 @@ def combine (F : String → List Val → Val) (fn : Option String) (vs : List Va
 def linkValue (F : String → List Val → Val) (cfg : Cfg) (l : FLink) : Val :=
   combine F l.fn (l.sources.map (readSource cfg))
 
+/-! ### `set_target_value` -/
+
+/-- `child_key = target_key[len(target_action.dest) + 1 :]` -/
+def childKey (l : FLink) : String := String.ofList (l.target.toList.drop (l.tdest.toList.length + 1))
+
+/-- `isinstance(i, Namespace) and child_key in i` -/
+def itemHas (ck : String) : Option (List String) → Bool
+  | some ks => ks.contains ck
+  | none => false
+
+/-- the model's name for the position `cfg[dest][j][child_key]` (it lies below `dest`, so `feeds dest ·` holds) -/
+def itemKey (tdest : String) (j : Nat) (ck : String) : String := tdest ++ ".#" ++ toString j ++ "." ++ ck
+
+/-- `for item in parent: if child_key in item: item[child_key] = value`, as the list of positions written -/
+def listSlots (tdest ck : String) : Nat → List (Option (List String)) → List String
+  | _, [] => []
+  | j, it :: r => (if itemHas ck it then [itemKey tdest j ck] else []) ++ listSlots tdest ck (j + 1) r
+
+/-- `set_target_value(action, value, cfg, logger)`: the configuration positions `value` is written to -/
+def targetSlots (l : FLink) : List String :=
+  if l.tsub then
+    if l.target = l.tdest then [l.target]                 -- (after `_check_type(value)`) `cfg[target_key] = value`
+    else match l.parent with
+      | .list items =>
+        if items.any (itemHas (childKey l)) then listSlots l.tdest (childKey l) 0 items
+        else []        -- falls through to `target_key not in cfg`, which holds below a list: "target not found"
+      | .single keys => if keys.contains (childKey l) then [l.target] else []
+      | .gone => []
+  else [l.target]
+
+/-- `cfg[k] = v` for every position -/
+def writeAll (v : Val) : List String → List (String × Val) → List (String × Val)
+  | [], m => m
+  | k :: r, m => writeAll v r (setVal k v m)
+
 /-- `order or target_key == target or target_key.startswith(f"{target}.")` -/
 def wanted (target : Option String) (l : FLink) : Bool :=
   match target with
@@ -89,7 +149,7 @@ def applyOne (F : String → List Val → Val) (links : List FLink) (target : Op
   | none => cfg
   | some l =>
     if wanted target l then
-      { cfg with vals := setVal l.target (linkValue F cfg l) cfg.vals, applied := cfg.applied ++ [i] }
+      { cfg with vals := writeAll (linkValue F cfg l) (targetSlots l) cfg.vals, applied := cfg.applied ++ [i] }
     else cfg
 
 /-- `get_link_actions(parser, "instantiate", skip=applied_links)`, as indices -/
